@@ -26,7 +26,7 @@ def complete_write_rules(ctx):
     # the retry loop: the one function of the writer module that hands slices to Write::write_vectored (found by what it
     # calls, not by its name)
     cands = [x for x in f.body_list if x.j['kind'] != 'closure' and (fn_label(x).startswith(P) or fn_label(x).startswith('<' + P))
-             and any((t.get('callee') or '') == 'std::io::Write::write_vectored' for bb, t in x.calls())]
+             and any((t.get('callee') or '') in ('std::io::Write::write_vectored', 'std::io::Write::write') for bb, t in x.calls())]
     b = cands[0] if len(cands) == 1 else None
     if b is None:
         ctx.ob('RETRY', 'anchor', False, None, 'expected exactly one function calling Write::write_vectored in the container writer, found %d' % len(cands))
@@ -43,15 +43,20 @@ def run(ctx):
 def retry(ctx, b):
     ctx.touched(b, len(b.calls()))
     loops = natural_loops(b)
-    wv = [(bb, t) for bb, t in b.calls() if (t.get('callee') or '') == 'std::io::Write::write_vectored']
+    # (`write(&bufs[0])` is what the default write_vectored does: same primitive)
+    wv = [(bb, t) for bb, t in b.calls() if (t.get('callee') or '') in ('std::io::Write::write_vectored', 'std::io::Write::write')]
     ctx.ob('RETRY', 'one-write-per-iteration', len(wv) == 1 and any(wv[0][0] in blk for blk in loops.values()), short_loc(b.span),
            '%d write_vectored call(s), inside the loop' % len(wv))
     if len(wv) != 1:
         return
     wbb, wt = wv[0]
     # writes the whole remaining bufs on the user's sink
-    ctx.ob('RETRY', 'writes-remaining-bufs', origin(b, wt['args'][0]).params() == {1} and origin(b, wt['args'][1]).params() == {2} and not origin(b, wt['args'][1]).has_arith(),
-           short_loc(wt.get('span')), 'write_vectored(writer, bufs) on the parameters themselves')
+    ao = origin(b, wt['args'][1])
+    first_only = (wt.get('callee') or '').endswith('::write')
+    arg_ok = ao.params() == {2} and not ao.has_arith() and (('index' not in ao.flags) if not first_only else
+                                                          all(origin(b, c['args'][1]).consts() == {0} and not origin(b, c['args'][1]).params() for c in ao.calls if call_matches(c, ['Index::index', 'Index<I>>::index', 'Index<I> for [T]>::index'])))
+    ctx.ob('RETRY', 'writes-remaining-bufs', origin(b, wt['args'][0]).params() == {1} and arg_ok,
+           short_loc(wt.get('span')), 'write_vectored(writer, bufs) / write(writer, &bufs[0]) on the parameters themselves: %s' % arg_ok)
     # Ok return only when bufs is empty
     oks = ok_return_blocks(b)
     ok = bool(oks)
@@ -179,7 +184,7 @@ def sink(ctx, loop_fn=None):
             ctx.touched(b, 1)
             if meth == 'write_all':
                 ok, why = True, 'complete-write primitive'
-            elif meth == 'write_vectored' and loop_fn is not None and b is loop_fn:
+            elif meth in ('write_vectored', 'write') and loop_fn is not None and b is loop_fn:
                 ok, why = True, 'inside the retry loop checked by RETRY'
             else:
                 ok, why = False, 'partial-write or flush primitive used on a sink outside the retry loop'
